@@ -493,7 +493,7 @@ def gen_program(rnd, max_stmts=12, max_depth=3, hash_range=8):
         return a
 
     def opt_sched():
-        return rnd.choice(scheds) if scheds and rnd.random() < 0.4 else None
+        return rnd.choice(scheds) if scheds and rnd.random() < 0.5 else None
 
     def new_obj(kind):
         kinds.append(kind)
@@ -501,11 +501,14 @@ def gen_program(rnd, max_stmts=12, max_depth=3, hash_range=8):
         return len(kinds) - 1
 
     depth = rnd.randint(0, max_depth)
-    nst = rnd.randint(1, max_stmts)
+    nst = rnd.randint(max(2, max_stmts // 2), max_stmts)
+    sched_first = rnd.random() < 0.5
     while len(prog) < nst:
         r = rnd.random()
         s = None
-        if r < 0.22 or not jobs:
+        if sched_first and not prog:
+            r = 0.4                              # start with a scheduler
+        if r < 0.2 or (not jobs and not (sched_first and not prog)):
             j = new_obj("job")
             s = ["newjob", j, arg(depth) if rnd.random() < 0.5 else None, opt_sched()]
         elif r < 0.36:
@@ -519,11 +522,11 @@ def gen_program(rnd, max_stmts=12, max_depth=3, hash_range=8):
                  None if pure else opt_sched()]
         elif r < 0.64:
             j = rnd.choice(jobs)
-            rm = rnd.random() < 0.4
+            rm = rnd.random() < 0.3
             if rm:
                 present = sorted(ref.req[j])
                 r2 = rnd.random()
-                if present and r2 < 0.6:
+                if present and r2 < 0.7:
                     k = rnd.randint(1, min(3, len(present)))
                     picks = rnd.sample(present, k)
                     args = []
@@ -535,18 +538,21 @@ def gen_program(rnd, max_stmts=12, max_depth=3, hash_range=8):
                         if kind == "set" and not all(hashable_term(a) for a in args):
                             kind = "list"
                         args = [[kind, args]]
-                elif present and r2 < 0.75:      # twice the same: the second one is gone
+                elif present and r2 < 0.8:       # twice the same: the second one is gone
                     x = ["j", rnd.choice(present)]
                     args = [wrap(["list", [x, x]], max(0, depth - 1))]
-                elif r2 < 0.82:                  # oneself
+                elif r2 < 0.85:                  # oneself
                     args = [wrap(["j", j], depth)]
                 else:
                     args = [arg(depth) for _ in range(rnd.randint(1, 2))]
             else:
                 args = [arg(depth) for _ in range(rnd.randint(0, 3))]
             s = ["requires", j, args, rm]
-        elif r < 0.76 and qhash:
+        elif r < 0.78 and qhash:
             q = rnd.randrange(len(qhash))
+            withs = [x for x in range(len(qhash)) if ref.ss.get(x) is not None]
+            if withs and rnd.random() < 0.5:
+                q = rnd.choice(withs)            # a sequence that has a scheduler
             r2 = rnd.random()
             if r2 < 0.12:
                 its = [["q", q]]                 # s.append(s)
@@ -555,7 +561,7 @@ def gen_program(rnd, max_stmts=12, max_depth=3, hash_range=8):
             else:
                 its = items(1, 4)
             s = ["append", q, its]
-        elif r < 0.82 and qhash:
+        elif r < 0.83 and qhash:
             s = ["seqrequires", rnd.randrange(len(qhash)), [arg(depth) for _ in range(rnd.randint(0, 2))]]
         elif r < 0.87 and scheds:
             s = ["add", rnd.choice(scheds), item()]
@@ -564,7 +570,7 @@ def gen_program(rnd, max_stmts=12, max_depth=3, hash_range=8):
         elif scheds:
             sc = rnd.choice(scheds)
             present = sorted(ref.mem[sc])
-            if present and rnd.random() < 0.7:
+            if present and rnd.random() < 0.8:
                 s = ["remove", sc, rnd.choice(present)]
             else:
                 s = ["remove", sc, rnd.choice(jobs)]
@@ -680,9 +686,9 @@ class C19(Prop):
 
     def generate(self, tier, rnd):
         cases = systematic(rnd, tier)
-        n = 700 if tier == "quick" else 40000
+        n = 2500 if tier == "quick" else 60000
         for _ in range(n):
-            cases.append(gen_program(rnd, max_stmts=rnd.choice([4, 8, 12]), max_depth=3,
+            cases.append(gen_program(rnd, max_stmts=rnd.choice([5, 9, 12]), max_depth=3,
                                      hash_range=rnd.choice([2, 8, 64])))
         return cases
 
